@@ -443,13 +443,25 @@ def u1(proj, rep):
             for x in ast.walk(s.value):
                 if isinstance(x, ast.Attribute) and x.attr == 'T':
                     ntr += 1
+    # the buffer that receives the images is complex whatever the gates look like (custom gates act through forward() and have no array to inspect)
+    nob = 1
+    bdef = next((x for x in ast.walk(f.node) if isinstance(x, ast.Assign) and isinstance(x.targets[0], ast.Name) and x.targets[0].id == base and isinstance(x.value, ast.Call)
+                 and ast.unparse(x.value.func).split('.')[-1] in ('eye', 'zeros', 'empty', 'identity')), None)
+    if bdef is not None:
+        dt = next((k.value for k in bdef.value.keywords if k.arg == 'dtype'), None)
+        nob += 1
+        if dt is not None and ast.unparse(dt).split('.')[-1] in ('complex128', 'complex64', 'complex', 'cdouble'):
+            rep.ok('U1', f.qual, f'image buffer `{ast.unparse(bdef)[:50]}` is complex', m, bdef)
+        else:
+            rep.violation('U1', f.qual, f'`{ast.unparse(bdef)[:80]}`: the dtype of the image buffer is not a complex constant; the images returned by apply_state are complex '
+                          f'whenever any gate (including a custom gate without `.array`) is, and their imaginary part is dropped on the store', m, bdef)
     want = 1 if store[0] == 'row' else 0
     if ntr % 2 == want:
         rep.ok('U1', f.qual, f'images stored as {store[0]}s, {ntr} transpose(s) before return', m, store[1])
     else:
         rep.violation('U1', f.qual, f'images of the basis vectors are stored as {store[0]}s but the result is transposed {ntr} time(s): '
                       f'to_unitary returns U^T (invisible for symmetric circuits)', m, store[1])
-    return 1
+    return nob
 
 
 # ------------------------------------------------------------------------------------------------ D4
